@@ -204,11 +204,17 @@ type ctx struct {
 	oldOps []pk.Signer // operator signers of earlier epochs
 }
 
-// operator recomputes the operator address independently: AddressFromBookkeepers(current consensus keys).
+// operator recomputes the operator address independently of node_manager.GetCurConOperator: the multi-signature
+// address of the current consensus keys with m = n-(n-1)/3 (the threshold is computed here, not by poly), and
+// cross-checks it against types.AddressFromBookkeepers.
 func (c *ctx) operator() common.Address {
-	a, err := types.AddressFromBookkeepers(pk.Pubs(c.cons))
+	n := len(c.cons)
+	a, err := types.AddressFromMultiPubKeys(pk.Pubs(pk.SortKeys(c.cons)), n-(n-1)/3)
 	if err != nil {
 		panic(err)
+	}
+	if b, _ := types.AddressFromBookkeepers(pk.Pubs(c.cons)); b != a {
+		c.r.Violation("operator:address-from-bookkeepers-differs-from-multisig-of-two-thirds", fmt.Sprintf("n=%d", n), nil)
 	}
 	return a
 }
@@ -1013,7 +1019,7 @@ func TestC18(t *testing.T) {
 	r.Set("routers", names)
 	r.Assume("only one direction is judged: without the required address among the transaction's signature addresses the call must fail and leave the storage digest unchanged; " +
 		"a failure WITH the witness is not a violation (garbage genesis payloads fail for other reasons), vacuity guards demand a witnessed success per method")
-	r.Assume("operator address = types.AddressFromBookkeepers(keys of the current consensus validators), recomputed by the check from its own bookkeeping of the validator set")
+	r.Assume("operator address = multi-signature address of the current consensus validators' keys with m = n-(n-1)/3, recomputed by the check from its own bookkeeping of the validator set (and cross-checked with types.AddressFromBookkeepers)")
 	r.Assume("commitDpos without the operator is allowed exactly when height - height_of_last_view_change >= MaxBlockChangeView (read with node_manager.GetConfig)")
 	r.Assume("a caller that swallows the error of a failed nested call (impossible for transactions on this tree: nothing calls NativeCall) is recorded as latent, not judged")
 	r.Assume("not covered: RegisterAsset / UpdateFee / AddSignature / vote import (listed in DESIGN, outside this task's method list)")
